@@ -27,5 +27,9 @@ StatesG1 == [a \in A1 |-> {St(n, b) : n \in 0..4, b \in 1..2}]
 
 \* ACTION_CONSTRAINT printing every transition (generation configs only)
 \* (three separately printed values, so that the driver can parse every distinct state only once)
-GenLog == PrintT("TR|" \o ToString(sview) \o " ## " \o ToString(lastAct') \o " ## " \o ToString(sview'))
+\* A forced step (PutForced, see Mempool.tla) is printed with the prefix "TF|" and cut (constraint FALSE): its successor
+\* is only an outcome to compare with, never a state to continue from.
+GenLog == IF lastAct'.name = "PutLocked"
+            THEN PrintT("TF|" \o ToString(sview) \o " ## " \o ToString(lastAct') \o " ## " \o ToString(sview')) /\ FALSE
+            ELSE PrintT("TR|" \o ToString(sview) \o " ## " \o ToString(lastAct') \o " ## " \o ToString(sview'))
 =============================================================================
